@@ -21,6 +21,8 @@ from vf.gen import values as V
 
 ID = "C01"
 LEVEL = "exploration"
+SUITE_UNDER_MONITORS = True  # thorough tier: the unedited repository tests run with this property's contracts loaded
+SUITE_CONTRACTS = ("d128_exact",)
 CONTRACTS = ("d128_exact", "record_roundtrip")
 REACH = {"Table.write": "Table.write", "Document.save": "Document.save", "Cell._from_value": "Cell._from_value",
          "_pack_decimal128": "_pack_decimal128", "_unpack_decimal128": "_unpack_decimal128", "Table.add_row": "Table.add_row", "Table.add_column": "Table.add_column"}
